@@ -24,6 +24,12 @@ class ModelUnsupported(Exception):
     """The emitted program used API behaviour this model does not define."""
 
 
+class ModelError(Exception):
+    """The emitted program misused the API in a way fibertree itself rejects
+    (wrong arity, not a permutation, depth out of range, descending below the
+    leaves).  This is a failure of the program, not of the model."""
+
+
 def _ev(_kind, **kw):
     if REC is not None:
         REC.ev(_kind, **kw)
@@ -141,13 +147,13 @@ class Fiber:
         f = self
         for n, c in enumerate(coords):
             if not isinstance(f, Fiber):
-                raise ModelUnsupported("getPayload below the leaves")
+                raise ModelError("getPayload below the leaves")
             i, ok = f._find(c)
             if not ok:
                 p = f.mk()
                 for _ in coords[n + 1:]:
                     if not isinstance(p, Fiber):
-                        raise ModelUnsupported("getPayload below the leaves")
+                        raise ModelError("getPayload below the leaves")
                     p = p.mk()
                 return p
             f = f.payloads[i]
@@ -157,7 +163,7 @@ class Fiber:
         f = self
         for c in coords:
             if not isinstance(f, Fiber):
-                raise ModelUnsupported("getPayloadRef below the leaves")
+                raise ModelError("getPayloadRef below the leaves")
             i, ok = f._find(c)
             if not ok:
                 if f.owner is not None:
@@ -297,7 +303,7 @@ class Tensor:
         self.owner = None
         n = len(self.rank_ids)
         if shape is not None and len(shape) != n:
-            raise ModelUnsupported("shape arity %r vs rank_ids %r" % (shape, rank_ids))
+            raise ModelError("shape arity %r vs rank_ids %r" % (shape, rank_ids))
         if root is not None:
             self.root = root
         elif n == 0:
@@ -310,7 +316,7 @@ class Tensor:
     @staticmethod
     def fromFiber(rank_ids=None, fiber=None, name="", shape=None, **kw):
         if not isinstance(fiber, Fiber):
-            raise ModelUnsupported("fromFiber on a non-fiber")
+            raise ModelError("fromFiber on a non-fiber")
         return Tensor(rank_ids=rank_ids, name=name, shape=shape, root=fiber)
 
     @staticmethod
@@ -358,7 +364,7 @@ class Tensor:
 
     def setRankIds(self, rank_ids):
         if len(rank_ids) != len(self.rank_ids):
-            raise ModelUnsupported("setRankIds arity %r on %r" % (rank_ids, self.rank_ids))
+            raise ModelError("setRankIds arity %r on %r" % (rank_ids, self.rank_ids))
         if self.owner is not None:
             _ev("input_mutation", op="setRankIds", owner=self.owner)
         _ev("set_rank_ids", name=self.name, old=list(self.rank_ids), new=list(rank_ids))
@@ -367,7 +373,7 @@ class Tensor:
 
     def swizzleRanks(self, rank_ids):
         if sorted(rank_ids) != sorted(self.rank_ids):
-            raise ModelUnsupported("swizzleRanks %r on %r" % (rank_ids, self.rank_ids))
+            raise ModelError("swizzleRanks %r on %r" % (rank_ids, self.rank_ids))
         perm = [self.rank_ids.index(r) for r in rank_ids]
         n = len(rank_ids)
         if n == 0:
@@ -387,7 +393,7 @@ class Tensor:
 
     def _check_depth(self, depth, span=1):
         if depth < 0 or depth + span > len(self.rank_ids):
-            raise ModelUnsupported("depth %d (+%d) on %r" % (depth, span, self.rank_ids))
+            raise ModelError("depth %d (+%d) on %r" % (depth, span, self.rank_ids))
 
     def _split(self, depth, groups_of):
         self._check_depth(depth)
@@ -514,7 +520,7 @@ class Tensor:
             elems = []
             for c, p in zip(fiber.coords, fiber.payloads):
                 if not (isinstance(c, tuple) and len(c) == levels + 1):
-                    raise ModelUnsupported("unflattenRanks on coordinate %r" % (c,))
+                    raise ModelError("unflattenRanks on coordinate %r" % (c,))
                 elems.append((c, p))
 
             def build(es, k):
